@@ -1,0 +1,155 @@
+//go:build verif
+
+package main
+
+import (
+	"bufio"
+	"encoding/json"
+	"fmt"
+	"os"
+	"sort"
+
+	"github.com/goccmack/gocc/internal/ast"
+	"github.com/goccmack/gocc/internal/frontend/parser"
+	"github.com/goccmack/gocc/internal/frontend/scanner"
+	"github.com/goccmack/gocc/internal/frontend/token"
+	"github.com/goccmack/gocc/internal/parser/first"
+	"github.com/goccmack/gocc/internal/parser/lr1/action"
+	lr1Items "github.com/goccmack/gocc/internal/parser/lr1/items"
+	"github.com/goccmack/gocc/internal/parser/symbols"
+	outToken "github.com/goccmack/gocc/internal/token"
+)
+
+func init() { commands["lr"] = cmdLR }
+
+type lrItem struct {
+	Prod int    `json:"p"`
+	Pos  int    `json:"k"`
+	LA   string `json:"la"`
+}
+
+type lrState struct {
+	Items       []lrItem            `json:"items"`
+	Transitions map[string]int      `json:"trans"`
+	Actions     []string            `json:"actions"`   // per terminal: "nil", "accept", "shift N", "reduce N"
+	Conflicts   map[string][]string `json:"conflicts"` // terminal -> competing actions (sorted)
+	CanRecover  bool                `json:"canRecover"`
+}
+
+type lrProd struct {
+	Id     string   `json:"id"`
+	Body   []string `json:"body"`
+	Len    int      `json:"len"` // 0 for an empty alternative
+	NTType int      `json:"nt"`
+	Error  bool     `json:"error"`
+	SDT    string   `json:"sdt"`
+}
+
+type lrDump struct {
+	Terminals    []string            `json:"terminals"`
+	Nonterminals []string            `json:"nonterminals"`
+	Symbols      []string            `json:"symbols"`
+	StringLits   []string            `json:"stringLits"`
+	Prods        []lrProd            `json:"prods"`
+	First        map[string][]string `json:"first"`
+	States       []lrState           `json:"states"`
+	NumConflicts int                 `json:"numConflicts"`
+	Panic        string              `json:"panic,omitempty"`
+}
+
+func actString(a action.Action) string {
+	switch x := a.(type) {
+	case action.Accept:
+		return "accept"
+	case action.Error:
+		return "nil"
+	case action.Reduce:
+		return fmt.Sprintf("reduce %d", int(x))
+	case action.Shift:
+		return fmt.Sprintf("shift %d", int(x))
+	}
+	return "?"
+}
+
+// cmdLR parses the grammar file exactly as main.go does and prints the
+// symbols, FIRST sets, LR(1) item sets, transitions and action rows.
+func cmdLR(_ *bufio.Reader, out *bufio.Writer, args []string) {
+	src, err := os.ReadFile(args[0])
+	if err != nil {
+		panic(err)
+	}
+	d := &lrDump{}
+	defer func() {
+		if r := recover(); r != nil {
+			d.Panic = fmt.Sprint(r)
+		}
+		enc := json.NewEncoder(out)
+		enc.SetEscapeHTML(false)
+		enc.Encode(d)
+	}()
+	sc := &scanner.Scanner{}
+	sc.Init(src, token.FRONTENDTokens)
+	p := parser.NewParser(parser.ActionTable, parser.GotoTable, parser.ProductionsTable, token.FRONTENDTokens)
+	grammar, err := p.Parse(sc)
+	if err != nil {
+		d.Panic = "parse error: " + err.Error()
+		return
+	}
+	g := grammar.(*ast.Grammar)
+	gSymbols := symbols.NewSymbols(g)
+	gSymbols.Add(g.LexPart.TokenIds()...)
+	g.LexPart.UpdateStringLitTokens(gSymbols.ListStringLitSymbols())
+	tokenMap := outToken.NewTokenMap(gSymbols.ListTerminals())
+	d.Terminals = tokenMap.TypeMap
+	d.Nonterminals = gSymbols.NTList()
+	d.Symbols = gSymbols.List()
+	d.StringLits = gSymbols.ListStringLitSymbols()
+	if g.SyntaxPart == nil {
+		return
+	}
+	for _, prod := range g.SyntaxPart.ProdList {
+		lp := lrProd{Id: prod.Id, NTType: gSymbols.NTType(prod.Id), Error: prod.Body.Error, SDT: prod.Body.SDT}
+		for _, s := range prod.Body.Symbols {
+			lp.Body = append(lp.Body, s.SymbolString())
+		}
+		if len(lp.Body) > 0 && lp.Body[0] == "empty" {
+			lp.Len = 0
+		} else {
+			lp.Len = len(lp.Body)
+		}
+		d.Prods = append(d.Prods, lp)
+	}
+	firstSets := first.GetFirstSets(g, gSymbols)
+	d.First = make(map[string][]string)
+	for _, nt := range gSymbols.NTList() {
+		keys := []string{}
+		for k := range firstSets.GetSet(nt) {
+			keys = append(keys, k)
+		}
+		sort.Strings(keys)
+		d.First[nt] = keys
+	}
+	lr1Sets := lr1Items.GetItemSets(g, gSymbols, firstSets)
+	for _, set := range lr1Sets.List() {
+		st := lrState{Transitions: set.Transitions, Conflicts: map[string][]string{}, CanRecover: set.CanRecover()}
+		for _, it := range set.Items {
+			st.Items = append(st.Items, lrItem{Prod: it.ProdIdx, Pos: it.Pos, LA: it.FollowingSymbol})
+		}
+		for _, sym := range tokenMap.TypeMap {
+			act, confl := set.Action(sym)
+			st.Actions = append(st.Actions, actString(act))
+			if len(confl) > 0 {
+				cs := []string{}
+				for _, c := range confl {
+					cs = append(cs, actString(c))
+				}
+				sort.Strings(cs)
+				st.Conflicts[sym] = cs
+			}
+		}
+		if len(st.Conflicts) > 0 {
+			d.NumConflicts++
+		}
+		d.States = append(d.States, st)
+	}
+}
